@@ -714,6 +714,11 @@ def run(ctx):
             if r < 0.35 or all(x[2] is None for x in mans):
                 # (re)build the product on this manager
                 spec0 = derive_spec(rng, spec_prev, maxprod)
+                lk = [k for k, v in spec0.items() if isinstance(v, list)]
+                if len(lk) >= 2 and rng.random() < 0.2:      # two options with the same values
+                    k1, k2 = rng.sample(lk, 2)
+                    if len(spec0[k1]) <= len(spec0[k2]):
+                        spec0[k2] = list(spec0[k1])
                 shared = {}
                 spec_rep, conts = {}, {}
                 for key, v in spec0.items():
@@ -723,7 +728,7 @@ def run(ctx):
                         else:
                             conts[key], spec_rep[key] = container_rep(rng, v)
                         sig = repr(v)
-                        if sig in shared and rng.random() < 0.5:      # the same object given for two options
+                        if sig in shared and rng.random() < 0.7:      # the same object given for two options
                             conts[key], spec_rep[key] = shared[sig]
                         shared[sig] = (conts[key], spec_rep[key])
                     else:
